@@ -116,6 +116,10 @@ def run(report, index, tier):
     from .c20 import guard_tokens, guard_transcriptions
     guard_tokens(report, index, M)
     guard_transcriptions(index, M, report, depth=2)
+    from . import c14
+    c14.rules(report, index)
+    from .tokens import deferrable_rule
+    deferrable_rule(report, index, 'R07.9', only=('Resolve', 'Literal'))
     D, A, lm = M.definitions, M.actions, M.lexmodel
     obf = index.need(OBF)
     T = Tables(index)
@@ -332,6 +336,47 @@ def run(report, index, tier):
                  'the skip set is a one-shot iterator: it is consumed by '
                  'the first print call of the printer, later calls skip '
                  'no reserved word', where='unparsers/es5.py:minify_printer')
+    # the rule closure is invoked once per print call: the skip set it
+    # hands to the Obfuscator must be the same on every invocation (a
+    # one-shot iterator created by the factory would be empty from the
+    # second print on) - decided by evaluating rules.obfuscate and calling
+    # the closure it returns three times
+    rules_mod = index.need('calmjs.parse.rules')
+    ofn = need_function(rules_mod, 'obfuscate')
+    for label, given in (('a tuple', ('do', 'if', 'in', '')),
+                         ('a list', ['do', 'if', 'in']),
+                         ('a set', {'do', 'if', 'in'})):
+        seen_kw = []
+
+        def mk_obf(seen_kw=seen_kw, **kw):
+            rk = kw.get('reserved_keywords')
+            try:
+                seen_kw.append(sorted(x for x in rk if x))
+            except TypeError:
+                seen_kw.append(repr(rk))
+            return Obj('Obfuscator', **kw)
+        evo = Evaluator(rules_mod, None, {}, {'Obfuscator': mk_obf},
+                        max_steps=100000, class_methods=T._class_methods())
+        evo.inline_module_functions = True
+        try:
+            clo, _ = evo.call(ofn, [], {'reserved_keywords': given})
+            if not (isinstance(clo, tuple) and clo and clo[0] == 'closure'):
+                raise AnalysisError('rules.obfuscate does not return a '
+                                    'rule closure')
+            for _i in range(3):
+                evo.steps = 0
+                evo.call_closure(clo, [], {})
+        except Raised as e:
+            seen_kw.append('raises %s' % e.text)
+        want = sorted(x for x in given if x)
+        r3.check(len(seen_kw) == 3 and all(k == want for k in seen_kw),
+                 'skip set stable across print calls (%s)' % label,
+                 'rules.obfuscate(reserved_keywords=<%s>)() called three '
+                 'times' % label,
+                 'the Obfuscator instances of successive print calls '
+                 'receive the skip sets %r, expected %r each time: from '
+                 'the second print on, reserved words are generated' % (
+                     seen_kw, want), where='rules.py:obfuscate')
     r3.check(ok, 'minify_printer passes the keyword list',
              'unparsers.es5.minify_printer', 'minify_printer does not pass '
              'a skip set covering the ES5 reserved words to '
